@@ -1080,6 +1080,13 @@ func (se *SessionExecutor) executeSingleSQLInSlice(pooledConn backend.PooledConn
 		return nil, fmt.Errorf("failed to initialize backendConn, slice: %s, db: %s, error: %v", sliceName, dbName, initErr)
 	}
 	res, execErr := pooledConn.Execute(sql, se.GetNamespace().GetMaxResultSize())
+	// results of this path are merged, not streamed: a result above 16 MiB arrives in several chunks
+	// and every one of them belongs to it (left unread, the rest was silently dropped)
+	if fetcher, ok := pooledConn.(backend.RemainingRowsFetcher); ok && execErr == nil && res != nil {
+		if execErr = fetcher.FetchRemainingRows(res, se.GetNamespace().GetMaxResultSize()); execErr != nil {
+			return nil, execErr
+		}
+	}
 	return res, execErr
 }
 
